@@ -349,7 +349,7 @@ def trivia(rng, need_space, rich):
     if k < 0.5:
         return rng.choice([" ", "\t", "\n", "\r\n", "   ", " \n\t "])
     if k < 0.75:
-        body = rng.choice(["c", " a * b / c ", "**", "/", "* /", "x\ny", "", " struct x { int a; }; "])
+        body = rng.choice(["c", " a * b / c ", "**", "/", "* /", "x\ny", "", " struct x { int a; }; ", "*", " doc *", "* x **"])
         return " /*" + body + "*/ "
     if k < 0.9:
         return " // " + rng.choice(["note", "", "/* not closed", "*/ stray"]) + "\n"
@@ -367,6 +367,9 @@ def print_spec(decls, rng=None, rich=False, bt_spans=None):
     for d in decls:
         toks = tokens(d)
         for i, (kind, text) in enumerate(toks):
+            if kind == "BT" and rich and " " in text:
+                # the white space inside `unsigned int` is the grammar's WHITESPACE+ as well
+                text = text.replace(" ", rng.choice([" ", "\t", "\n", "\r\n", "  ", " \t", "\r"]))
             out.append(text)
             nxt = toks[i + 1] if i + 1 < len(toks) else None
             if kind == "BT":
@@ -741,10 +744,13 @@ def chain_spec(rng, n, depth):
 
 
 TRIVIA_CLASSES = [" ", "\t", "\n", "\r\n", "   ", " \n\t ", "/**/", "/* c */", "/*x\ny*/", "/* * / */", "// n\n", "//\n",
-                  " /* a */ // b\n /* c */ ", "/* struct s { int a; }; */", "// /* not closed\n"]
+                  " /* a */ // b\n /* c */ ", "/* struct s { int a; }; */", "// /* not closed\n", "/***/", "/** doc **/", "\r"]
+
+# white space that may stand INSIDE a two-word basic type (`unsigned int`): no comments there
+INNER_WS = ["\t", "\n", "\r\n", "   ", "\r", " \t "]
 
 
-TRIVIA_QUICK = [" ", "\n", "\r\n", "/**/", "/* c */", "/*x\ny*/", "// n\n", "//\n", " /* a */ // b\n /* c */ "]
+TRIVIA_QUICK = [" ", "\n", "\r\n", "/**/", "/* c */", "/*x\ny*/", "// n\n", "//\n", " /* a */ // b\n /* c */ ", "/***/"]
 
 
 def gap_sweep(decls, classes=None, with_spans=False):
@@ -755,10 +761,12 @@ def gap_sweep(decls, classes=None, with_spans=False):
     for d in decls:
         toks += tokens(d)
 
-    def render(gap=None, triv=""):
+    def render(gap=None, triv="", inner=None):
         out = []
         spans = []
         for i, (kind, text) in enumerate(toks):
+            if inner is not None and inner[0] == i:
+                text = text.replace(" ", inner[1])
             out.append(text)
             nxt = toks[i + 1] if i + 1 < len(toks) else None
             ins = triv if gap == i else ""
@@ -779,3 +787,9 @@ def gap_sweep(decls, classes=None, with_spans=False):
         for t in (classes or TRIVIA_CLASSES):
             x, sp = render(gap, t)
             yield (x, gap, t, sp) if with_spans else (x, gap, t)
+    # ... and every white-space class inside every two-word basic type
+    for i, (kind, text) in enumerate(toks):
+        if kind == "BT" and " " in text:
+            for w in INNER_WS:
+                x, sp = render(inner=(i, w))
+                yield (x, ("inner", i), w, sp) if with_spans else (x, ("inner", i), w)
